@@ -77,7 +77,9 @@ def run_safety(case):
     with core.scratch("c07") as d:
         tabs, paths = [], []
         for fi in range(case["nfiles"]):
-            tab = psm.psm_table(rng, n_spectra=(int(rng.integers(2500, 4000)) if strict else int(rng.integers(120, 220)) * case["folds"]), mult_max=2,
+            # with two collections the first is several times larger than the second (the smaller one is read faster)
+            big = 3 if (case["nfiles"] > 1 and fi == 0) else 1
+            tab = psm.psm_table(rng, n_spectra=(int(rng.integers(2500, 4000)) if strict else int(rng.integers(120, 220)) * case["folds"] * big), mult_max=2,
                                 key_cols=("ExpMass",), file_index=fi, label_enc=case["enc"],
                                 best_feature_desc=case["best_desc"], sep_strength=3.0, n_info=1, n_noise=3)
             tabs.append(tab)
@@ -85,12 +87,16 @@ def run_safety(case):
                          if case["fmt"] == "parquet" else psm.write_pin(tab, d / f"f{fi}.pin"))
         # strict cases train at the customary 1 % and evaluate at 0.3-0.5 %
         train_fdr = 0.01 if strict else fdr
+        w = 3 if case["index"] % 3 == 1 else 1
         out = pipeline.run_brew(paths, learner=case["learner"], folds=case["folds"], seed=int(rng.integers(1 << 30)),
-                                test_fdr=fdr, train_fdr=train_fdr, max_iter=2, override=case["override"])
+                                test_fdr=fdr, train_fdr=train_fdr, max_iter=2, override=case["override"], max_workers=w,
+                                perturb=int(rng.integers(1 << 30)))
+        extra_workers = w
         extra = {k: case[k] for k in ("learner", "enc", "best_desc", "fmt", "nfiles", "folds", "override")}
         extra["fdr"] = fdr
         extra["train_fdr"] = train_fdr
         extra["strict"] = strict
+        extra["workers"] = extra_workers
         if out["status"].startswith("crash"):
             res.violate("crash", out["sig"], msg=out["error"]["msg"], **extra)
             return res
@@ -143,6 +149,10 @@ def run_safety(case):
         descs = list(out["descs"])
         if len(set(descs)) != 1 or len(descs) != len(tabs):
             res.violate("descs_shape", str(descs), **extra)
+            return res
+        if any(len(r) != len(t["df"]) for r, t in zip(ret, tabs)):
+            res.violate("scores_do_not_belong_to_their_collection", "length", lengths=[len(r) for r in ret],
+                        rows=[len(t["df"]) for t in tabs], **extra)
             return res
         fell_back_to = None
         for f in feats:
